@@ -953,6 +953,213 @@ pub fn build_context_fanout(glyph: u16, records: u16, depth: u8, variant: u64) -
     t
 }
 
+/// Tokens of a CFF DICT: per operator the operands as (start, length, integer value; reals 0).
+fn dict_tokens(d: &[u8]) -> Vec<(u16, Vec<(usize, usize, i64)>)> {
+    let mut out = Vec::new();
+    let mut ops: Vec<(usize, usize, i64)> = Vec::new();
+    let mut i = 0;
+    while i < d.len() {
+        let b = d[i];
+        match b {
+            28 => {
+                let v = i64::from(i16::from_be_bytes([*d.get(i + 1).unwrap_or(&0), *d.get(i + 2).unwrap_or(&0)]));
+                ops.push((i, 3, v));
+                i += 3;
+            }
+            29 => {
+                let mut x = [0u8; 4];
+                for k in 0..4 {
+                    x[k] = *d.get(i + 1 + k).unwrap_or(&0);
+                }
+                ops.push((i, 5, i64::from(i32::from_be_bytes(x))));
+                i += 5;
+            }
+            30 => {
+                let s = i;
+                i += 1;
+                while i < d.len() {
+                    let n = d[i];
+                    i += 1;
+                    if n & 0x0f == 0x0f || n >> 4 == 0x0f {
+                        break;
+                    }
+                }
+                ops.push((s, i - s, 0));
+            }
+            32..=246 => {
+                ops.push((i, 1, i64::from(b) - 139));
+                i += 1;
+            }
+            247..=250 => {
+                let v = (i64::from(b) - 247) * 256 + i64::from(*d.get(i + 1).unwrap_or(&0)) + 108;
+                ops.push((i, 2, v));
+                i += 2;
+            }
+            251..=254 => {
+                let v = -(i64::from(b) - 251) * 256 - i64::from(*d.get(i + 1).unwrap_or(&0)) - 108;
+                ops.push((i, 2, v));
+                i += 2;
+            }
+            12 => {
+                let op = 0x0c00 | u16::from(*d.get(i + 1).unwrap_or(&0));
+                out.push((op, std::mem::take(&mut ops)));
+                i += 2;
+            }
+            _ => {
+                out.push((u16::from(b), std::mem::take(&mut ops)));
+                i += 1;
+            }
+        }
+    }
+    out
+}
+
+/// DICT integer in exactly `len` bytes, if it has such an encoding.
+fn dict_int_fixed(v: i64, len: usize) -> Option<Vec<u8>> {
+    match len {
+        1 if (-107..=107).contains(&v) => Some(vec![(v + 139) as u8]),
+        2 if (108..=1131).contains(&v) => {
+            let w = v - 108;
+            Some(vec![(w / 256 + 247) as u8, (w % 256) as u8])
+        }
+        2 if (-1131..=-108).contains(&v) => {
+            let w = -v - 108;
+            Some(vec![(w / 256 + 251) as u8, (w % 256) as u8])
+        }
+        3 if (-32768..=32767).contains(&v) => {
+            let b = (v as i16).to_be_bytes();
+            Some(vec![28, b[0], b[1]])
+        }
+        5 if (i64::from(i32::MIN)..=i64::from(i32::MAX)).contains(&v) => {
+            let b = (v as i32).to_be_bytes();
+            Some(vec![29, b[0], b[1], b[2], b[3]])
+        }
+        _ => None,
+    }
+}
+
+/// (count, objects as (start, end), end of index) of a CFF2 INDEX (32-bit count).
+fn cff2_index_at(d: &[u8], at: usize) -> Option<(usize, Vec<(usize, usize)>, usize)> {
+    let count = be32(d, at)? as usize;
+    if count == 0 {
+        return Some((0, Vec::new(), at + 4));
+    }
+    let off_size = usize::from(*d.get(at + 4)?);
+    if !(1..=4).contains(&off_size) || count > 70000 {
+        return None;
+    }
+    let offs = at + 5;
+    let data = offs + (count + 1) * off_size - 1;
+    let rd = |i: usize| -> Option<usize> {
+        let b = d.get(offs + i * off_size..offs + (i + 1) * off_size)?;
+        Some(b.iter().fold(0usize, |a, &x| (a << 8) | usize::from(x)))
+    };
+    let mut objs = Vec::with_capacity(count);
+    let mut prev = rd(0)?;
+    for i in 1..=count {
+        let o = rd(i)?;
+        if o < prev || data + o > d.len() {
+            return None;
+        }
+        objs.push((data + prev, data + o));
+        prev = o;
+    }
+    Some((count, objs, data + prev))
+}
+
+fn cff2_index_bytes(objs: &[Vec<u8>]) -> Vec<u8> {
+    let mut v = Vec::new();
+    v.extend_from_slice(&(objs.len() as u32).to_be_bytes());
+    if objs.is_empty() {
+        return v;
+    }
+    v.push(4);
+    let mut o = 1u32;
+    v.extend_from_slice(&o.to_be_bytes());
+    for ob in objs {
+        o += ob.len() as u32;
+        v.extend_from_slice(&o.to_be_bytes());
+    }
+    for ob in objs {
+        v.extend_from_slice(ob);
+    }
+    v
+}
+
+/// See [`Surgery::InstallCff2Subrs`].
+pub fn cff2_with_subrs(d: &[u8], glyphs: &[u16], nest: u8) -> Result<Vec<u8>, String> {
+    let bail = |m: &str| -> String { format!("surgery: cff2 subrs: {}", m) };
+    if d.first() != Some(&2) {
+        return Err(bail("not CFF2"));
+    }
+    let hs = usize::from(*d.get(2).ok_or_else(|| bail("short"))?);
+    let tl = usize::from(be16(d, 3).ok_or_else(|| bail("short"))?);
+    let top = d.get(hs..hs + tl).ok_or_else(|| bail("top dict"))?;
+    let toks = dict_tokens(top);
+    let operand = |op: u16| toks.iter().find(|(o, _)| *o == op).and_then(|(_, v)| v.last().copied());
+    let (cs_pos, cs_len, cs_off) = operand(17).ok_or_else(|| bail("no CharStrings"))?;
+    let (_, _, fda_off) = operand(0x0c24).ok_or_else(|| bail("no FDArray"))?;
+    let (ncs, cs_objs, _) = cff2_index_at(d, cs_off.max(0) as usize).ok_or_else(|| bail("CharStrings index"))?;
+    let (nfd, fd_objs, _) = cff2_index_at(d, fda_off.max(0) as usize).ok_or_else(|| bail("FDArray index"))?;
+    if nfd != 1 {
+        return Err(bail("more than one Font DICT"));
+    }
+    let (fs, fe) = fd_objs[0];
+    let ftoks = dict_tokens(&d[fs..fe]);
+    let private = ftoks.iter().find(|(o, _)| *o == 18).map(|(_, v)| v.clone()).ok_or_else(|| bail("no Private"))?;
+    let [(sz_pos, sz_len, size), (of_pos, of_len, off)] = private[..] else {
+        return Err(bail("Private operands"));
+    };
+    let (size, off) = (size.max(0) as usize, off.max(0) as usize);
+    let pd = d.get(off..off + size).ok_or_else(|| bail("Private DICT range"))?;
+    if dict_tokens(pd).iter().any(|(o, _)| *o == 19) {
+        return Err(bail("already has local subroutines"));
+    }
+    let mut gs: Vec<usize> = glyphs.iter().map(|g| usize::from(*g)).filter(|g| *g < ncs).collect();
+    gs.sort_unstable();
+    gs.dedup();
+    gs.retain(|g| cs_objs[*g].1 > cs_objs[*g].0);
+    if gs.is_empty() {
+        return Err(bail("no usable glyph"));
+    }
+    let levels = usize::from(nest.min(8));
+    if gs.len() * (levels + 1) > 200 {
+        return Err(bail("too many subroutines for one-byte operands"));
+    }
+    // subroutines: bodies first, then `levels` layers of forwarders
+    let n = gs.len();
+    let call = |idx: usize| -> Vec<u8> { vec![(idx as i64 - 107 + 139) as u8, 10] };
+    let mut subrs: Vec<Vec<u8>> = gs.iter().map(|g| d[cs_objs[*g].0..cs_objs[*g].1].to_vec()).collect();
+    for l in 0..levels {
+        for k in 0..n {
+            subrs.push(call(l * n + k));
+        }
+    }
+    let mut programs: Vec<Vec<u8>> = cs_objs.iter().map(|(a, b)| d[*a..*b].to_vec()).collect();
+    for (k, g) in gs.iter().enumerate() {
+        programs[*g] = call(levels * n + k);
+    }
+    // new Private DICT (+ `Subrs` with the offset from its own start), local subrs, CharStrings
+    let mut out = d.to_vec();
+    let new_pd_at = out.len();
+    let mut npd = pd.to_vec();
+    let new_size = npd.len() + 6;
+    npd.extend_from_slice(&dict_int_fixed(new_size as i64, 5).unwrap());
+    npd.push(19);
+    out.extend_from_slice(&npd);
+    out.extend_from_slice(&cff2_index_bytes(&subrs));
+    let new_cs_at = out.len();
+    out.extend_from_slice(&cff2_index_bytes(&programs));
+    // patch the operands in place
+    let sz = dict_int_fixed(new_size as i64, sz_len).ok_or_else(|| bail("Private size operand does not fit"))?;
+    let of = dict_int_fixed(new_pd_at as i64, of_len).ok_or_else(|| bail("Private offset operand does not fit"))?;
+    let cs = dict_int_fixed(new_cs_at as i64, cs_len).ok_or_else(|| bail("CharStrings operand does not fit"))?;
+    out[fs + sz_pos..fs + sz_pos + sz_len].copy_from_slice(&sz);
+    out[fs + of_pos..fs + of_pos + of_len].copy_from_slice(&of);
+    out[hs + cs_pos..hs + cs_pos + cs_len].copy_from_slice(&cs);
+    Ok(out)
+}
+
 fn num_glyphs(disk: &Disk) -> Result<u16, String> {
     disk.tables
         .get(&tag_from_str("maxp"))
@@ -1142,6 +1349,12 @@ pub fn apply(disk: &mut Disk, s: &Surgery) -> Result<(), String> {
             }
             disk.tables
                 .insert(tag_from_str("GSUB"), Rc::new(build_context_fanout(*glyph, records, depth, *variant)));
+            Ok(())
+        }
+        Surgery::InstallCff2Subrs { glyphs, nest } => {
+            let t = disk.tables.get(&tag_from_str("CFF2")).ok_or("surgery: no CFF2")?.clone();
+            let new = cff2_with_subrs(&t, glyphs, *nest)?;
+            disk.tables.insert(tag_from_str("CFF2"), Rc::new(new));
             Ok(())
         }
         Surgery::CompactHmtx { num_h_metrics } => {
